@@ -90,16 +90,21 @@ func (p *SpProg) stmts(ss []SpStmt, ind string, funcs *[]string) string {
 			fmt.Fprintf(&b, "%s$1 = $1\n", ind)
 		case "tf":
 			fmt.Fprintf(&b, "%stf(%d)\n", ind, s.N)
-		case "x":
-			if s.N < 0 {
-				fmt.Fprintf(&b, "%sprint \"X\"\n%sexit\n", ind, ind)
-			} else {
-				fmt.Fprintf(&b, "%sprint \"X %d\"\n%sexit %d\n", ind, s.N, ind, s.N)
+		case "x", "n", "nf":
+			text := map[string]string{"n": "print \"N\"; next", "nf": "print \"NF\"; nextfile"}[s.K]
+			switch {
+			case s.K == "x" && s.N < 0:
+				text = "print \"X\"; exit"
+			case s.K == "x":
+				text = fmt.Sprintf("print \"X %d\"; exit %d", s.N, s.N)
 			}
-		case "n":
-			fmt.Fprintf(&b, "%sprint \"N\"\n%snext\n", ind, ind)
-		case "nf":
-			fmt.Fprintf(&b, "%sprint \"NF\"\n%snextfile\n", ind, ind)
+			if p.InFunc { // the statement is executed inside a user function, called in an expression
+				name := fmt.Sprintf("ctl%d", len(*funcs)+1)
+				*funcs = append(*funcs, fmt.Sprintf("function %s(a) {\n  if (a) { %s }\n  return a\n}\n", name, text))
+				fmt.Fprintf(&b, "%szz = 1 + %s(1)\n", ind, name)
+			} else {
+				fmt.Fprintf(&b, "%s%s\n", ind, text)
+			}
 		default:
 			panic("bad special stmt " + s.K)
 		}
@@ -456,6 +461,7 @@ func spExpected4(cs *Case) (out string, status int, fatal bool, undefined string
 			break
 		}
 		s.setLine(r)
+		sig = 0
 		for _, pre := range p.Pre {
 			if pre == "print" {
 				s.out.WriteString(s.line + "\n")
@@ -768,5 +774,6 @@ func spFeatures(cs *Case) map[string]bool {
 	if cs.Sp.InFunc {
 		f["assign-in-function"] = true
 	}
+	shFeatures(cs, f)
 	return f
 }
